@@ -514,6 +514,34 @@ func (e *effEngine) recordPath(fi *core.FuncInfo, p *core.Path, how string, pos 
 			case *types.Map:
 				elem = u.Elem()
 			}
+			// a table of records holding pointers: {&x.A, v}, {&x.B, w} — a store through rec.field goes to what
+			// that field of each record was built from
+			if st, isStruct := structOf(elem); isStruct && len(p.Steps) >= 2 && p.Steps[1].Field != nil && pointerLike(p.Steps[1].Field.Type()) && len(via) < 12 {
+				nrel := append(append([]core.Step{}, p.Steps[2:]...), rel...)
+				for _, el := range cl.Elts {
+					if kv, ok := el.(*ast.KeyValueExpr); ok {
+						el = kv.Value
+					}
+					rec, ok := core.Unparen(el).(*ast.CompositeLit)
+					if !ok {
+						continue
+					}
+					for i, fe := range rec.Elts {
+						var val ast.Expr
+						if kv, ok := fe.(*ast.KeyValueExpr); ok {
+							if id, ok := kv.Key.(*ast.Ident); ok && id.Name == p.Steps[1].Field.Name() {
+								val = kv.Value
+							}
+						} else if i < st.NumFields() && st.Field(i) == p.Steps[1].Field {
+							val = fe
+						}
+						if val != nil && len(nrel) > 0 {
+							e.recordWrite(fi, val, how, pos, value, nrel, via, origin, lhs, unknownRel)
+						}
+					}
+				}
+				return
+			}
 			if elem != nil && pointerLike(elem) {
 				nrel := append(append([]core.Step{}, p.Steps[1:]...), rel...)
 				if len(nrel) > 0 {
@@ -856,4 +884,12 @@ func (e *effEngine) describe(w effWrite) string {
 		via = " via " + strings.Join(w.via, " → ")
 	}
 	return fmt.Sprintf("%s of %s at %s%s", w.how, w.lhs, e.c.P.Pos(w.pos), via)
+}
+
+func structOf(t types.Type) (*types.Struct, bool) {
+	if t == nil {
+		return nil, false
+	}
+	st, ok := t.Underlying().(*types.Struct)
+	return st, ok
 }
